@@ -369,6 +369,25 @@ pub fn basis() -> Vec<String> {
         v.push(format!("\x1b[2;3{}", f));
         v.push(format!("\x1b[?2;3{}", f));
     }
+    // every final byte - implemented or not, also behind `?`, `>` and the intermediates
+    // `!` (DECSTR) and SP - with more parameters and sub-parameters than any function
+    // reads: whatever the dispatch arm does, it must leave nothing behind for the next
+    // sequence
+    for f in 0x40u8..=0x7e {
+        let f = f as char;
+        for (pf, it) in [("", ""), ("?", ""), (">", ""), ("", "!"), ("", " ")] {
+            v.push(format!("\x1b[{}2;3:4:5;6;7{}{}", pf, it, f));
+        }
+    }
+    // and every ESC final, plain and behind `#`, `(`
+    for f in 0x30u8..=0x7e {
+        let f = f as char;
+        if f == '[' || f == ']' || f == 'P' || f == 'X' || f == '^' || f == '_' {
+            continue;
+        }
+        v.push(format!("\x1b[2;3;4\x1b{}", f));
+        v.push(format!("\x1b[2;3;4\x1b#{}", f));
+    }
     v
 }
 
